@@ -175,5 +175,37 @@ pub fn oneway(cex: &Value) -> Result<String, String> {
       }
     }
   }
+  // a refused un-revocation must leave the list untouched even if the update closure swallows the error (best-effort batch)
+  let r = no_panic(move || {
+    let mut log = Vec::new();
+    let mut c = sl_credential(StatusPurpose::Revocation);
+    if c.update(|l| l.set_entry(idx, true)).is_err() {
+      log.push("revoking a fresh entry refused".to_owned());
+    }
+    let res = c.update(|l| {
+      let refused = l.set_entry(idx, false).is_err();
+      let _ = l.set_entry(other, true);
+      if refused {
+        Ok(())
+      } else {
+        Err(identity_credential::revocation::status_list_2021::StatusList2021CredentialError::UnreversibleRevocation)
+      }
+    });
+    if res.is_err() {
+      log.push("un-revoking a revoked entry inside update was not refused".to_owned());
+    }
+    if !matches!(c.entry(idx), Ok(CredentialStatus::Revoked)) {
+      log.push(format!("Revocation: entry({idx}) is no longer revoked after a refused set_entry({idx}, false) inside update"));
+    }
+    if !matches!(c.entry(other), Ok(CredentialStatus::Revoked)) {
+      log.push(format!("Revocation: entry({other}) set in the same update was lost"));
+    }
+    log
+  });
+  match r {
+    Err(msg) => return Ok(format!("status list credential panicked: {msg}")),
+    Ok(log) if !log.is_empty() => return Ok(log.join("; ")),
+    _ => {}
+  }
   Err("one-way revocation and status mapping agree with the model".to_owned())
 }
